@@ -298,6 +298,13 @@ ALL = [
        extra_=["implies(truthy(call('gen.is_future', coro)), result is coro)",
                "implies(not truthy(call('gen.is_future', coro)), "
                "result == call_m('apply', call_attr(call_attr(self.loop, 'asyncio_loop'), 'create_task'), coro))"]),
+    # map_async lifecycle (round 8; NodeFrames F1 demands that whatever writes work_task is under contract): stop() asks the worker to
+    # finish through its event -- it never cancels the task (a job inside the mapped coroutine would keep its references for ever) --
+    # and forgets the pair; a stopped node gets a new worker on start()
+    mk('map_async', [], {'work_task': 'None'}, ['C02', 'C05', 'C18'], method_='stop', self_fields_=['work_task'], tag='_stop',
+       extra_=["len(recorded_all('cancel')) == 0", "len(recorded_all('set')) == 1"]),
+    mk('map_async', [], {}, ['C02', 'C18'], method_='start', self_fields_=['work_task'], tag='_start',
+       extra_=["len(recorded_all('cancel')) == 0", "self.work_task == recorded('_create_work_task')"]),
     mk('combine_latest', [], {'_initial_emit_on': 'None'}, ['C01', 'C15'], varargs_=2, tag='_emit_on_not_given',
        extra_=['list(self.emit_on) == [up0, up1]', 'len(self.last) == 2 and len(self.metadata) == 2',
                'up0 in self.missing and up1 in self.missing']),
